@@ -10,8 +10,9 @@ use std::{
 use crate::{
     context::CommonContext,
     instruction::operation::Operation,
+    document::document,
     parser::{
-        parse_iter, CodePoint, Item, Macro, ParseContext, ParseResult, Paths,
+        holds_nothing, parse_iter, CodePoint, Item, Macro, ParseContext, ParseResult, Paths,
         Segment,
     },
 };
@@ -113,6 +114,13 @@ pub fn build_pass_0(
         expanded_bytes: Cell::new(0),
     };
 
+    // comments and blank lines of a body are dropped once, so that they cost nothing however often the macro is called
+    let macroses: HashMap<String, Vec<(CodePoint, String)>> = parsed
+        .macroses
+        .iter()
+        .map(|(name, body)| (name.clone(), assembled_lines(body)))
+        .collect();
+
     // macro calls are expanded wherever they stand, in the data and eeprom segments too
     for segment in parsed.segments {
         context.add_segment(Segment {
@@ -120,10 +128,20 @@ pub fn build_pass_0(
             t: segment.t,
             items: vec![],
         });
-        pass0_internal(segment.clone(), &context, &parsed.macroses, 0)?;
+        pass0_internal(segment.clone(), &context, &macroses, 0)?;
     }
 
     Ok(context.as_pass0_result())
+}
+
+/// What an expansion of the body copies and reads: its lines without their trailing `;` and `//` comments, and without
+/// the lines that hold nothing else
+fn assembled_lines(body: &[(CodePoint, String)]) -> Vec<(CodePoint, String)> {
+    body.iter()
+        .map(|(point, text)| (point, document::code_text(text).unwrap_or(text.as_str())))
+        .filter(|(_, code)| !holds_nothing(code))
+        .map(|(point, code)| (point.clone(), code.to_string()))
+        .collect()
 }
 
 /// Nesting limit of macro calls inside macro bodies
@@ -133,8 +151,8 @@ const MAX_MACRO_DEPTH: usize = 64;
 const MAX_MACRO_EXPANSIONS: usize = 1 << 18;
 
 /// Lines of macro bodies one build may expand: a few calls of long bodies that call long bodies give as many lines
-/// as many calls do. Comments, blank lines and arms that are not assembled count as well, so there is room for a body
-/// of some dozen lines for every word of the largest flash (128 K words)
+/// as many calls do. Arms that are not assembled count as well, so there is room for a body of some dozen lines for
+/// every word of the largest flash (128 K words)
 const MAX_EXPANDED_LINES: usize = 1 << 22;
 
 /// Longest line a macro body may become when its arguments are put in: an argument handed on twice doubles with every level
@@ -142,9 +160,6 @@ const MAX_EXPANDED_LINE: usize = 1 << 16;
 
 /// Text all expansions of one build may amount to: many lines that each are long are more than either limit alone allows
 const MAX_EXPANDED_BYTES: usize = 1 << 26;
-
-/// What a line costs beside its text: a blank line is copied and handed to the parser like any other
-const EXPANDED_LINE_COST: usize = 8;
 
 /// Puts the arguments in: `@n` stands for the n-th one. One digit is looked at (`@1` was always replaced before `@10`
 /// could be), and the line is read once, however many arguments there are.
@@ -202,15 +217,7 @@ fn pass0_internal(
                         );
                     }
                     context.expansions.set(context.expansions.get() + 1);
-                    // blank lines and lines that are a comment from their start cost next to nothing: they are free
-                    let body_lines = macroses.get(macro_name).map_or(0, |body| {
-                        body.iter()
-                            .filter(|(_, text)| {
-                                let text = text.trim_start();
-                                !(text.is_empty() || text.starts_with(';') || text.starts_with("//"))
-                            })
-                            .count()
-                    });
+                    let body_lines = macroses.get(macro_name).map_or(0, |body| body.len());
                     match context.expanded_lines.get().checked_add(body_lines) {
                         Some(lines) if lines <= MAX_EXPANDED_LINES => {
                             context.expanded_lines.set(lines)
@@ -258,8 +265,7 @@ fn pass0_internal(
 
 /// Counts the text of one expanded line against the budget of the build
 fn count_expanded_text(context: &Pass0Context, bytes: usize, line: &CodePoint) -> Result<(), Error> {
-    let cost = bytes.saturating_add(EXPANDED_LINE_COST);
-    match context.expanded_bytes.get().checked_add(cost) {
+    match context.expanded_bytes.get().checked_add(bytes) {
         Some(total) if total <= MAX_EXPANDED_BYTES => {
             context.expanded_bytes.set(total);
             Ok(())
